@@ -200,15 +200,23 @@ def one(res, W, rng, hist, seg, tls, enabled, raising_name, via_proxy=False):
     plan = [dict(outcome="ok", script=script)]
     raising = {raising_name: (lambda: ValueError("user callback failed"))} if raising_name else {}
     out = {}
+    # how the application installs its callbacks (constructor, attributes before the run, attributes from inside on_open) and whether a
+    # keepalive is configured (interval far beyond the scenario: no ping is ever due) make no difference to what is delivered
+    hsh = (len(hist) * 7 + sum(map(len, hist)) + len(seg) + int(tls) + len(enabled)) % 10
+    assign = "ctor" if hsh < 5 or raising_name == "on_open" else "after-init" if hsh < 8 else "in-on_open"
+    extra_kw = {"ping_interval": 5000, "ping_payload": "keepalive"} if hsh % 3 == 1 and not via_proxy else {}
+    res.count("callbacks_assigned:" + assign)
+    if extra_kw:
+        res.count("runs_with_idle_keepalive_configured")
 
     def scen():
         H.reset_process_state()
-        run = appsim.AppRun(plan, url="wss://app.test/" if tls else "ws://app.test/", callbacks=enabled, raising=raising, via_proxy=via_proxy)
+        run = appsim.AppRun(plan, url="wss://app.test/" if tls else "ws://app.test/", callbacks=enabled, raising=raising, via_proxy=via_proxy, assign=assign)
         out["run"] = run
         if via_proxy:
             run.run_forever(http_proxy_host="proxy.test", http_proxy_port=3128, http_proxy_timeout=0.4)
         else:
-            run.run_forever(sslopt={"cert_reqs": 0} if tls and rng.random() < 0.5 else None)
+            run.run_forever(sslopt={"cert_reqs": 0} if tls and rng.random() < 0.5 else None, **extra_kw)
         return run
 
     S = sched.Sched(horizon=300, watchdog=60)
@@ -218,8 +226,9 @@ def one(res, W, rng, hist, seg, tls, enabled, raising_name, via_proxy=False):
     except sched.SimFailure as e:
         failure = e
     run = out.get("run")
-    case = {"history": hist, "segmentation": seg, "tls": tls, "callbacks": sorted(enabled), "raising": raising_name, "via_proxy": via_proxy}
-    res.case((hist, seg, tls, tuple(sorted(enabled)), raising_name, via_proxy), nontrivial=len(hist) >= 2 or seg != "per-frame")
+    case = {"history": hist, "segmentation": seg, "tls": tls, "callbacks": sorted(enabled), "raising": raising_name, "via_proxy": via_proxy, "assign": assign,
+            "run_kwargs": extra_kw}
+    res.case((hist, seg, tls, tuple(sorted(enabled)), raising_name, via_proxy, assign, bool(extra_kw)), nontrivial=len(hist) >= 2 or seg != "per-frame")
     if via_proxy:
         res.count("via_proxy_runs")
         if run is not None and run.connect_requests != ["CONNECT app.test:80 HTTP/1.1"]:
@@ -430,7 +439,9 @@ def cont_mode_case(res, W, rng, hist, seg, tls):
 
     def scen():
         H.reset_process_state()
-        run = appsim.AppRun([dict(outcome="ok", script=script)], url="wss://app.test/" if tls else "ws://app.test/", callbacks=enabled)
+        # half of the runs install the handlers as attributes after construction (on_cont_message included)
+        run = appsim.AppRun([dict(outcome="ok", script=script)], url="wss://app.test/" if tls else "ws://app.test/", callbacks=enabled,
+                            assign=("after-init" if (len(hist) + int(tls) + len(seg)) % 2 else "ctor"))
         out["run"] = run
         run.run_forever()
     S = sched.Sched(horizon=300, watchdog=60)
